@@ -13,7 +13,7 @@ import sys
 import z3
 
 from . import sym
-from .sym import (V, VInt, VBool, VStr, VRef, VNone, VOpt, VTuple, VRec, VList, VDict, VFun, VMap, VKey, Unsupported,
+from .sym import (V, VInt, VBool, VStr, VRef, VNone, VOpt, VTuple, VRec, VList, VDict, VFun, VMap, VKey, VSMap, Unsupported,
                   lift, tobool, toint, tostr, veq, vnot, vand, vor, vite, fresh, fresh_name, is_sym,
                   TInt, TBool, TStr, TRef, TList, TTuple, TOpt, TNone, TRec, INT, BOOL, STR, REF, IntS)
 from .heap import Heap, DATA_KEYS
@@ -698,6 +698,18 @@ class Exec(object):
             if isinstance(base, VMap):
                 self.assign(tgt.value, base.store(idx, v), st)
                 return
+            if isinstance(base, VRec) and base.cls == "dict" and not base.fields and isinstance(lift(idx), (VInt, VRef)):
+                raise Unsupported("dict used with symbolic integer / node keys: give its type (TSMap) in loops[..]['types'] "
+                                  "or declare it before the loop")
+            if isinstance(base, VSMap):
+                k = lift(idx)
+                if not isinstance(k, (VInt, VRef)):
+                    raise Unsupported("symbolic dict with a key of type %r" % (k,))
+                new, defs = base.store(k.t, v if isinstance(v, (VList, list, tuple)) else lift(v))
+                for d_ in defs:
+                    st.define(d_)
+                self.assign(tgt.value, new, st)
+                return
             if isinstance(base, VList) or isinstance(base, (list,)):
                 base = lift(base) if not isinstance(base, VList) else base
                 i = self.norm_index(base, idx, st, tgt)
@@ -911,6 +923,12 @@ class Exec(object):
         if isinstance(base, VMap):
             self.safety(st, node, base.has(idx).t, "KeyError", "key_present")
             return base.get(idx)
+        if isinstance(base, VSMap):
+            k = lift(idx)
+            if not isinstance(k, (VInt, VRef)):
+                raise Unsupported("symbolic dict with a key of type %r" % (k,))
+            self.safety(st, node, tobool(base.has(k.t)), "KeyError", "key_present")
+            return base.get(k.t)
         if isinstance(base, VDict):
             k = tostr(lift(idx))
             self.safety(st, node, tobool(base.has(k)), "KeyError", "key_present")
@@ -1134,6 +1152,11 @@ class Exec(object):
             return st.heap.has(cont[1], x)
         if isinstance(cont, VMap):
             return cont.has(x)
+        if isinstance(cont, VSMap):
+            k = lift(x)
+            if not isinstance(k, (VInt, VRef)):
+                raise Unsupported("symbolic dict with a key of type %r" % (k,))
+            return cont.has(k.t)
         if isinstance(cont, VDict):
             return cont.has(tostr(lift(x)))
         if isinstance(cont, VRec) and cont.cls == "params":
@@ -2128,6 +2151,8 @@ def type_of(v):
     if isinstance(v, VTuple):
         its = [type_of(x) for x in v.items]
         return TTuple(*its) if all(t is not None for t in its) else None
+    if isinstance(v, VSMap):
+        return sym.TSMap(v.vt)
     if isinstance(v, VList):
         if v.et is not None:
             return TList(v.et)
